@@ -19,7 +19,7 @@ from vlib.runner import Ctx, Failure
 LEVEL = "exploration"
 RULE = (
     "enumerated: pair count 1..3 (thorough 1..4) x all Bell-state tuples x variant {recv_keep, recv_keep_with_info, recv_keep "
-    "sequential+post-routine, recv_rsp, recv_rsp_with_info, create_keep} x {generic, NV hardware} x 0..2 other live qubits "
+    "sequential+post-routine (also post routines with classical temporaries of their own), recv_rsp, recv_rsp_with_info, create_keep} x {generic, NV hardware} x 0..2 other live qubits "
     "created first (prepared |1>, |+>) x expect_phi_plus {on, off}; measure-directly: 4 Bell states x 6 named bases x both "
     "outcomes, via result objects with explicit bases and via recv_measure(); quick adds a Hypothesis sample of 4-pair "
     "tuples.  Non-trivial = >=1 delivered pair not Phi+; distinct by (tuple, variant, hardware, others, expectation)"
@@ -110,9 +110,16 @@ def run_keep(case) -> None:
     outcomes = None
     if variant in ("recv_keep_seq", "recv_keep_post"):
         outcomes = conn.new_array(n)
+        tally = conn.new_array(1, init_values=[0]) if case.get("post_kind") else None
 
         def post(c, q, pair):
             q.measure(future=outcomes.get_future_index(pair))
+            if case.get("post_kind") == "tally":
+                # a post routine that needs classical temporaries of its own: it keeps a count on the node
+                tally.get_future_index(0).add(1)
+            elif case.get("post_kind") == "if":
+                with outcomes.get_future_index(pair).if_eq(1):
+                    tally.get_future_index(0).add(1)
 
         kw.update(sequential=variant == "recv_keep_seq", post_routine=post)
     try:
@@ -356,6 +363,12 @@ def keep_cases(max_pairs: int, ctx_open) -> List[Dict[str, Any]]:
         for bells in ([1], [2, 3], [3, 0, 1]):
             for expect in (True, False):
                 cases.append({"kind": "keep", "bells": list(bells), "variant": "recv_keep_post", "hardware": hardware, "others": 0, "expect": expect})
+    # post routines that use classical temporaries of their own (a count kept on the node, a conditional on the outcome)
+    for hardware in ("generic", "nv"):
+        for variant in ("recv_keep_seq", "recv_keep_post"):
+            for post_kind in ("tally", "if"):
+                for bells in ([2], [0, 1], [1, 2], [3, 3], [2, 0, 1], [0, 3, 2]):
+                    cases.append({"kind": "keep", "bells": list(bells), "variant": variant, "hardware": hardware, "others": 0, "expect": True, "post_kind": post_kind})
     # NV through the compiler argument alone; the expectation left at its documented default
     for given in ("generic", "default", "nv"):
         for bells in ([1], [2], [3, 1], [0, 2], [1, 2, 3]):
